@@ -155,6 +155,12 @@ def _doc(kind, value, route, pos, lit, req="opt"):
         return s
     if route == "direct":
         sch = with_default(base)
+    elif route == "nullable30-wrapper":
+        # OpenAPI 3.0: a nullable reference is spelled {allOf: [$ref], nullable: true}; its sibling default belongs to the property
+        if "$ref" not in base:
+            comps["Plain"] = copy.deepcopy(base)
+            base = {"$ref": "#/components/schemas/Plain"}
+        sch = {"allOf": [copy.deepcopy(base)], "nullable": True, "default": copy.deepcopy(value)}
     elif route == "ref-wrapper":
         # the property's own schema is a component; the use site wraps the reference and adds a sibling default
         if "$ref" not in base:
@@ -165,7 +171,7 @@ def _doc(kind, value, route, pos, lit, req="opt"):
         sch = None
     paths = {}
     if pos == "model":
-        if route in ("direct", "ref-wrapper"):
+        if route in ("direct", "ref-wrapper", "nullable30-wrapper"):
             comps["M"] = {"type": "object", "properties": {"p": sch, "other": {"type": "integer"}}}
             if req != "opt":
                 # REQUIRED and defaulted, declared before / after a required property that has no default
@@ -175,15 +181,21 @@ def _doc(kind, value, route, pos, lit, req="opt"):
         elif route == "allof-override":
             comps["Base"] = {"type": "object", "properties": {"p": copy.deepcopy(base), "other": {"type": "integer"}}}
             comps["M"] = {"allOf": [{"$ref": "#/components/schemas/Base"}, {"type": "object", "properties": {"p": with_default(base)}}]}
+        elif route in ("allof-redescribed", "allof-redescribed-camel"):
+            # inherited WITH its default, re-declared by a later member that only adds a description: the default is still the property's
+            pn = "p" if route == "allof-redescribed" else "pageSize"
+            again = dict(copy.deepcopy(base), description="described again") if "$ref" not in base else {"allOf": [copy.deepcopy(base)], "description": "described again"}
+            comps["Base"] = {"type": "object", "properties": {pn: with_default(base), "other": {"type": "integer"}}}
+            comps["M"] = {"allOf": [{"$ref": "#/components/schemas/Base"}, {"type": "object", "properties": {pn: again, "page_size_max": {"type": "integer", "default": 7}}}]}
         elif route == "allof-inherit":
             comps["Base"] = {"type": "object", "properties": {"p": with_default(base), "other": {"type": "integer"}}}
             comps["M"] = {"allOf": [{"$ref": "#/components/schemas/Base"}, {"type": "object", "properties": {"extra": {"type": "string"}}}]}
     else:
-        if route not in ("direct", "ref-wrapper"):
+        if route not in ("direct", "ref-wrapper", "nullable30-wrapper"):
             return None
         paths["/x"] = {"get": {"operationId": "theOp", "parameters": [{"name": "p", "in": pos, "required": False, "schema": sch}],
                                "responses": {"204": {"description": "n"}}}}
-    return gen.base_doc(comps or None, paths=paths)
+    return gen.base_doc(comps or None, paths=paths, version="3.0.3" if route == "nullable30-wrapper" else "3.1.0")
 
 
 PARAM_KINDS = {"str", "int", "num", "bool", "date", "datetime", "uuid", "enum_str", "enum_int", "enum_ref", "union", "any", "const",
@@ -194,11 +206,13 @@ def cases(tier):
     for kind in KINDS:
         t = table(kind)
         for label in t:
-            for route in ("direct", "ref-wrapper", "allof-override", "allof-inherit"):
+            for route in ("direct", "ref-wrapper", "allof-override", "allof-inherit", "nullable30-wrapper", "allof-redescribed", "allof-redescribed-camel"):
                 for pos in ("model", "query", "header", "cookie"):
-                    if pos != "model" and (kind not in PARAM_KINDS or route not in ("direct", "ref-wrapper")):
+                    if pos != "model" and (kind not in PARAM_KINDS or route not in ("direct", "ref-wrapper", "nullable30-wrapper")):
                         continue
-                    if route == "ref-wrapper" and kind in ("union", "any", "const", "enum_str_oneofnull"):
+                    if route in ("ref-wrapper", "nullable30-wrapper") and kind in ("union", "any", "const", "enum_str_oneofnull", "enum_str_null", "enum_int_null"):
+                        continue
+                    if route.startswith("allof-redescribed") and (kind in ("union", "any", "const") or kind.endswith("null") or t[label][0] != V):
                         continue
                     for lit in ((False, True) if kind.startswith("enum") else (False,)):
                         if _doc(kind, VALUES[label], route, pos, lit) is None:
@@ -268,13 +282,13 @@ def run_case(p):
                 cls = find_class(res, sb, "M")
                 if cls is not None:
                     artefact = True
-                    par = inspect.signature(cls).parameters.get("p")
+                    par = inspect.signature(cls).parameters.get("page_size" if route == "allof-redescribed-camel" else "p")
                     got_py = par.default if par is not None else "<no-parameter>"
                     if got_py is inspect.Parameter.empty:
                         got_py = "<no-default>"
                     try:
                         e = (cls() if req == "opt" else cls(other=1)).to_dict()
-                        got_js = e.get("p", "<absent>")
+                        got_js = e.get("pageSize" if route == "allof-redescribed-camel" else "p", "<absent>")
                     except Exception as exc:  # noqa: BLE001
                         got_js = f"<raises {type(exc).__name__}: {exc}>"
             elif res.endpoints:
